@@ -251,6 +251,7 @@ def generate(ch, profile):
     nsend = ch.choice("wl", [3, 5, 8, 12, 20, 30, 45, 60])
     counters = Counter()
     closed = set()
+    reused = set()
     for i in range(nsend):
         c = ch.choice("wl", chans)
         side = ch.choice("wl", ["A", "B"])
@@ -258,6 +259,15 @@ def generate(ch, profile):
         if profile == "c13" and r < 12 and c["tag"] not in closed:
             ops.append({"op": "close", "tag": c["tag"], "side": side, "t": ch.choice("wl", DTS)})
             closed.add(c["tag"])
+            continue
+        if profile == "c13" and c["tag"] in closed and r < 40 and c["tag"] not in reused:
+            # re-use the id of a closed channel while faults are still active
+            reused.add(c["tag"])
+            ops.append({"op": "reuse", "tag": c["tag"], "newtag": "n%d" % len(reused), "side": side,
+                        "t": ch.choice("wl", [0.0, 0.1, 0.5, 2.0, 8.0])})
+            ops.append({"op": "send", "tag": "n%d" % len(reused), "side": side, "kind": "str", "size": 10, "t": 0.0})
+            ops.append({"op": "send", "tag": "n%d" % len(reused), "side": "B" if side == "A" else "A",
+                        "kind": "str", "size": 10, "t": ch.choice("wl", DTS)})
             continue
         if r < 6 or (profile in ("c02", "c06") and r < 18):
             # burst larger than the congestion window
@@ -338,6 +348,8 @@ class World:
         self.skipped_ops = 0
         self.done_ops = 0
         self.healed = False
+        self.frozen = False
+        self.stopped = set()
         self.phase = "faults"
         self.wire_bad = 0
 
@@ -456,13 +468,23 @@ class World:
     def note_escape(self, side, exc):
         self.log.add("escape", side, exc_tag(exc))
         self.probes["exception_escaped"] += 1
+        # the receive path of this endpoint is dead although the association
+        # still reports itself connected: nothing can drain (C02), recover
+        # (C06) or close (C13) any more.  Other oracles stop here so that the
+        # consequences are not reported as separate violations.
+        detail = "an exception escaped _handle_data on %s: %r" % (side, exc)
+        for prop in ("C02", "C06", "C13"):
+            self.violation(prop, "exception-escaped:" + exc_tag(exc), detail)
+        for model in self.chans.values():
+            model.broken = True
+        self.frozen = True
 
     # -- violations --------------------------------------------------------
     def violation(self, prop, signature, detail):
         self.log.add("violation", prop, signature)
         if len(self.violations) < 20:
             self.violations.append({"property": prop, "signature": signature, "detail": detail,
-                                    "t": round(self.loop.time(), 6)})
+                                    "t": round(self.loop.time(), 6), "log_at": list(self.log.tail)[-50:]})
 
     # -- channel observers -------------------------------------------------
     def _attach(self, model, side, chan):
@@ -671,6 +693,16 @@ class World:
                         self.violation("C13", "readyState:moved-backwards:%s>%s" % (seq[-1], st),
                                        "tag=%s side=%s" % (model.tag, side))
                     seq.append(st)
+                    if ("C13" in self.props and st in ("closing", "closed") and model.close_called is None
+                            and self.sctp[side].state == "connected" and not model.broken
+                            and not self.stopped and self.phase != "teardown"):
+                        earlier = [m.tag for m in self.chans.values() if m is not model and m.close_called is not None
+                                   and any(m.obj[x] is not None and m.obj[x].id == chan.id for x in "AB")]
+                        why = "id-reused-before-peer-half-of-reset-arrived" if earlier else "unexplained"
+                        self.violation("C13", "channel-closed-although-nobody-closed-it:" + why,
+                                       "tag=%s side=%s state=%s id=%r earlier channels on this id: %r" % (
+                                           model.tag, side, st, chan.id, earlier))
+                        model.broken = True
                 if "C13" in self.props and (model.opens[side] > 1 or model.closes[side] > 1) and not model.broken:
                     self.violation("C13", "event:%s-fired-twice" % ("open" if model.opens[side] > 1 else "close"),
                                    "tag=%s side=%s" % (model.tag, side))
@@ -700,6 +732,8 @@ class World:
             self._last_state = st
 
     def step_hook(self):
+        if self.frozen:
+            return
         try:
             self.check_buffered()
             self.check_states()
@@ -724,8 +758,11 @@ class World:
         elif kind == "close":
             self._op_close(op["tag"], side)
         elif kind == "stop":
+            self.stopped.add(side)
             self.loop.create_task(self.sctp[side].stop(), context=self.ctx[side])
             self.exempt["stop_op"] += 1
+        elif kind == "reuse":
+            self._op_reuse(op)
         elif kind == "threshold":
             self._op_threshold(op["tag"], side, op["value"])
 
@@ -762,6 +799,13 @@ class World:
         if model is None or model.obj[side] is not None or self.sctp[side].state == "closed":
             self.skipped_ops += 1
             return
+        if model.close_called is not None:
+            # the two applications agreed on this channel out of band; the one
+            # that has not created its end yet does not do so after the other
+            # has already closed the channel
+            self.skipped_ops += 1
+            self.exempt["negotiated_peer_not_created_after_close"] += 1
+            return
         try:
             chan = self.ctx[side].run(self.RTCDataChannel, self.sctp[side], self._params(model.spec))
         except Exception as exc:  # noqa
@@ -769,6 +813,22 @@ class World:
             return
         self._attach(model, side, chan)
         self.done_ops += 1
+
+    def _op_reuse(self, op):
+        old = self.chans.get(op["tag"])
+        if (old is None or op["newtag"] in self.chans or not self.connected()
+                or not all(old.obj[s] is not None and old.obj[s].readyState == "closed" for s in "AB")):
+            self.skipped_ops += 1
+            return
+        cid = old.obj[old.creator].id
+        if cid is None:
+            self.skipped_ops += 1
+            return
+        spec = dict(old.spec, tag=op["newtag"], negotiated=True, id=cid, label="reuse", protocol="",
+                    maxRetransmits=None, maxPacketLifeTime=None, ordered=True, side=op["side"])
+        self._op_create(dict(spec, op="create"))
+        self._op_create_peer({"tag": op["newtag"], "side": "B" if op["side"] == "A" else "A"})
+        self.probes["id_reused_during_faults"] += 1
 
     def sendable(self, model, side):
         chan = model.obj[side]
@@ -816,6 +876,7 @@ class World:
             model.close_called = self.loop.time()
             model.close_state = chan.readyState
             model.close_id = chan.id
+            model.close_assoc = self.sctp[side].state
         self.probes["close_in_state_" + chan.readyState] += 1
         if chan.id is None:
             self.probes["close_before_id_assigned"] += 1
@@ -879,6 +940,9 @@ class World:
         for side in "AB":
             if self.dtls[side].escaped:
                 return "exception-escaped:" + exc_tag(self.dtls[side].escaped[0])
+        for u in self.loop.unhandled:
+            if u.get("exc") is not None:
+                return "unhandled-exception-in-callback:" + exc_tag(u["exc"])
         try:
             for side in "AB":
                 peer = "B" if side == "A" else "A"
@@ -925,7 +989,8 @@ class World:
         async def late_start():
             if skew:
                 await asyncio.sleep(skew)
-            await self.sctp[second].start(caps, 5000)
+            if second not in self.stopped:  # an application does not start a stopped transport
+                await self.sctp[second].start(caps, 5000)
 
         self.tasks.append(loop.create_task(late_start(), context=self.ctx[second]))
         loop.step_hook = self.step_hook
@@ -947,6 +1012,8 @@ class World:
 
     async def liveness(self):
         loop = self.loop
+        if self.frozen:
+            return
         # give a still-connecting association the chance to establish or fail
         await self.wait_until(lambda: all(self.sctp[s].state != "connecting" for s in "AB"), 400.0)
         if not self.connected():
@@ -968,9 +1035,7 @@ class World:
             if not ok:
                 self.exempt["association_closed_during_drain"] += 1
             return
-        if any(self.dtls[s].escaped for s in "AB"):
-            cause = "exception-escaped:" + exc_tag((self.dtls["A"].escaped + self.dtls["B"].escaped)[0])
-            self.violation("C02", "%s:%s" % (what, cause), "receive path raised; association still reports connected")
+        if self.frozen:
             return
         missing, desc = self.reliable_backlog()
         if missing:
@@ -1037,7 +1102,8 @@ class World:
             return all(model.obj[s] is None or model.obj[s].readyState == "closed" for s in "AB")
 
         def pending_close():
-            return [m for m in self.chans.values() if m.close_called is not None and not closed_both(m) and not m.broken]
+            return [m for m in self.chans.values() if m.close_called is not None and not closed_both(m) and not m.broken
+                    and not m.exempt]
 
         # close the remaining channels too, from a drawn side
         for model in list(self.chans.values()):
@@ -1080,6 +1146,7 @@ class World:
                     self.probes["id_reused"] += 1
         # 3. when the association ends every channel closes
         side = "A" if len(self.chans) % 2 else "B"
+        self.phase = "teardown"
         self.log.add("op", "stop-final", side)
         await self.ctx_await(side, self.sctp[side].stop())
         await self.wait_until(lambda: all(self.sctp[s].state == "closed" for s in "AB"), 120.0)
@@ -1093,6 +1160,10 @@ class World:
         self.check_states()
 
     def diagnose_close(self, model):
+        if getattr(model, "close_assoc", "") != "connected":
+            # close() was called while the closing side's association was not
+            # (yet) established: aiortc then closes the local end only
+            return "closed-before-association-established"
         try:
             for side in "AB":
                 s = self.sctp[side]
@@ -1163,6 +1234,13 @@ def finish(world, spec, ch, cfg, ops, harness):
     faults["node_switch"] = world.loop.node_switches
     prop = spec["property"]
     mine = [v for v in world.violations if v["property"] == prop]
+    if prop == "C06" and any(not m.reliable for m in world.chans.values()):
+        # "abandoning messages never ... blocks messages on any other channel"
+        for v in world.violations:
+            if v["property"] == "C02" and not v["signature"].startswith("exception-escaped"):
+                mine.append(dict(v, property="C06", signature="other-channels-blocked:" + v["signature"]))
+    known = set(spec.get("known_signatures") or ())
+    mine.sort(key=lambda v: v["signature"] in known)
     hv = [v for v in world.violations if v["property"] == "HARNESS"]
     res = {
         "verdict": "ok",
@@ -1203,6 +1281,6 @@ def finish(world, spec, ch, cfg, ops, harness):
             "config": cfg, "ops": ops, "streams": {k: list(v) for k, v in ch.trace().items()},
             "expect": {"signature": v["signature"], "digest": res["digest"]},
             "detail": v["detail"], "t": v.get("t"),
-            "log_tail": list(world.log.tail)[-60:],
+            "log_tail": v.get("log_at") or list(world.log.tail)[-60:],
         }
     return res
